@@ -270,6 +270,8 @@ def run(cx):
     # a header bit that spills into a neighbouring field changes the parent leads a packet is delivered under
     from bits import check_headers
     check_headers(cx, "C02.p", "C02.q")
+    from props.C11 import window_limited_still_syncs
+    window_limited_still_syncs(cx, "C02.r")
 
 
 SELFTEST = [
